@@ -467,7 +467,10 @@ func (l *Lexer) readString() string {
 
 	result = l.input[pos:l.pos]
 
-	l.readChar() // skip the last quote
+	// an unterminated string ends with the input, there is no quote to skip
+	if l.char == quote {
+		l.readChar() // skip the last quote
+	}
 
 	// remove slashes before quotes
 	return strings.ReplaceAll(result, "\\"+string(quote), string(quote))
